@@ -29,6 +29,40 @@ theorem foldl_addHeader (xs : List ExtHdr) (p : Ipv6) : (xs.foldl addHeader p) =
   | nil => simp
   | cons x xs ih => simp [List.foldl_cons, ih, addHeader, List.append_assoc]
 
+/-! ### `extract_metadata` -/
+
+theorem metadataLoop_safe (fuel : Nat) (c : Cursor) (cur hs : Nat) (hi : c.Inv) (hf : c.size < fuel) :
+    ParseSafe (metadataLoop fuel c cur hs) := by
+  induction fuel generalizing c cur hs with
+  | zero => omega
+  | succ fuel ih =>
+    unfold metadataLoop
+    split
+    · exact .ok _
+    · rcases readU8_spec c hi with ⟨t, c1, e1, i1, s1, n1, _, _, _⟩ | ⟨e1, _⟩
+      · rcases readU8_spec c1 i1 with ⟨l, c2, e2, i2, s2, n2, _, _, _⟩ | ⟨e2, _⟩
+        · simp only [e1, e2, bind, Out.bind]
+          rcases Cursor.skip_spec c2 ((l + 1) * 8 - 2) i2 with ⟨c3, e3, i3, s3, _⟩ | ⟨e3, _⟩
+          · simp only [e3]; exact ih c3 _ _ i3 (by omega)
+          · simp only [e3]; exact .malformed
+        · simp only [e1, e2, bind, Out.bind]; exact .malformed
+      · simp only [e1, bind, Out.bind]; exact .malformed
+
+/-- **C01 / `IPv6::extract_metadata`**: on every byte string a size or `malformed_packet`; the raw cast of the buffer is
+    covered by the length test, the loop never runs out of fuel -/
+theorem extractMetadata_safe (b : Bytes) : ParseSafe (extractMetadata b) := by
+  unfold extractMetadata
+  split
+  · exact .malformed
+  · rename_i h40
+    have h6 : (rd "IPv6::extract_metadata header->next_header" b 6) = .ok (b[6]'(by omega)) := by
+      simp only [rd]
+      rw [List.getElem?_eq_getElem (by omega)]
+    rcases Cursor.skip_spec (Cursor.ofBytes b) 40 (Cursor.ofBytes_inv b) with ⟨c, e, i, _, _⟩ | ⟨e, hlt⟩
+    · simp only [h6, e, bind, Out.bind]
+      exact metadataLoop_safe _ c _ _ i (by omega)
+    · simp only [Cursor.ofBytes] at hlt; omega
+
 /-! ### the option walk of hop-by-hop / destination headers -/
 
 /-- **`parse_header_options` is safe on every data block**: it returns a list or reports `invalid_ipv6_extension_header`;
@@ -195,6 +229,10 @@ theorem decodeFragment_roundtrip (c l off res m ident : Nat) (extra : Bytes) (ho
   refine ⟨by omega, ?_⟩
   have : (off * 8 + res * 2 + m) % 2 = m := by omega
   rw [this]
+
+example : extractMetadata ([0x60, 0, 0, 0, 0, 16, 0, 64] ++ List.replicate 32 0 ++ [17, 0, 1, 4, 0, 0, 0, 0] ++ [0, 53, 0, 53, 0, 8, 0, 0]) =
+    .ok 48 := rfl
+example : extractMetadata ([0x60, 0, 0, 0, 0, 16, 59, 64] ++ List.replicate 32 0) = .throw .malformedPacket := rfl
 
 -- non-vacuity: a PadN + router alert option area, a type 0 routing header, a last fragment at offset 185
 example : decodeOptions ⟨0, 6, [5, 2, 0, 0, 1, 0]⟩ = .ok (some [(5, [0, 0])]) := rfl
